@@ -10,7 +10,9 @@ MANIFEST = dict(
          "main output or HTLC below its dust/trim limit, HTLC count, in-flight sum, expiry window, initial-commitment "
          "rules; C05_accept_per_tag gives each bound for an arbitrary filter unless its own tag is downgraded; "
          "C05_setup (safe type, both delays in range), C05_channel_value (no counterparty signature above the size "
-         "limit), C05_onchain (nothing beyond commitment 0 while funding unconfirmed or closed), filter theorems (only "
+         "limit), C05_onchain (nothing beyond commitment 0 while funding unconfirmed or closed), C05_usable_only_after_setup "
+         "(over all request histories on a channel id: a signed / accepted commitment belongs to a ready channel whose "
+         "setup passed validate_setup_channel), filter theorems (only "
          "an explicit Warn rule downgrades).  The model is run against the real validators (through the Validator "
          "trait) and against Channel::sign_counterparty_commitment_tx_phase2 on every run with boundary-crossed "
          "inputs, and an independent u128 reference predicate monitors every acceptance.",
@@ -24,7 +26,8 @@ MANIFEST = dict(
 )
 
 PINNED = ["C05_accept_implies_bounds", "C05_accept_per_tag", "C05_setup", "C05_channel_value", "C05_onchain",
-          "C05_filter_default", "C05_filter_only_explicit", "C05_nonvacuous", "C05_fee_truncation_refuted"]
+          "C05_usable_only_after_setup", "C05_filter_default", "C05_filter_only_explicit", "C05_nonvacuous",
+          "C05_fee_truncation_refuted"]
 
 IMPORTS = ["Model.CommitmentPolicyCheck"]
 
@@ -41,6 +44,7 @@ def run(res):
     n_commit = 3000 if quick else 100000
     n_setup = 600 if quick else 8000
     n_chan = 150 if quick else 1500
+    n_life = 140 if quick else 2100
     commit, setup, chan, stats = [], [], [], []
     for prof in profiles:
         r = lib.run_harness("policy", "commit", res.seed, n_commit, res.tier, profile=prof)
@@ -52,6 +56,9 @@ def run(res):
     r = lib.run_harness("policy", "setup", res.seed, n_setup, res.tier)
     setup = r["CASE"]
     stats += r.get("STATS", [])
+    r = lib.run_harness("policy", "life", res.seed, n_life, res.tier)
+    life = r["CASE"]
+    stats += r.get("STATS", [])
 
     cterms = [c["coq"] for c in commit]
     sterms = [c["coq"] for c in setup]
@@ -60,11 +67,19 @@ def run(res):
     fc = lib.coq_failures(IMPORTS, "commit_case", "check_commit", cterms, "c05_commit")
     fs = lib.coq_failures(IMPORTS, "setup_case", "check_setup", sterms, "c05_setup")
     fh = lib.coq_failures(IMPORTS, "sign_case", "check_sign", hterms, "c05_sign")
+    lterms = [c["coq"] for c in life]
+    fl = lib.coq_failures(IMPORTS, "life_case", "check_life", lterms, "c05_life")
 
     # the property itself on the implementation's answers (u128 reference predicate in the harness)
     mon_commit = [c for c in commit if c["monitor_violation"]]
     mon_setup = [c for c in setup if c["monitor_violation"]]
     mon_chan = [c for c in chan if c["monitor_violation"]]
+    mon_life = [c for c in life if c["monitor_violation"]]
+    for c in mon_life[:2]:
+        res.violation("a commitment was signed / accepted on a channel whose setup did not pass validate_setup_channel "
+                      "(new_channel, setup_channel refused, then requests on the same channel id): "
+                      + "; ".join(c["monitor_violation"][:3]),
+                      {"domain": "policy-life", "seed": res.seed, "case": _strip(c)})
     # end-to-end first: a real channel signing the commitment
     for c in mon_chan[:2]:
         res.violation("counterparty commitment outside the policy bounds was signed by "
@@ -90,7 +105,7 @@ def run(res):
             bad = [hterms[j] for j in fh]
             still = lib.coq_failures(IMPORTS, "sign_case", "check_sign_old", bad, "c05_sign_old")
             explained_old += len(bad) - len(still)
-    have_input = bool(mon_commit or mon_chan or mon_setup)
+    have_input = bool(mon_commit or mon_chan or mon_setup or mon_life)
     shown = 0
     for i in fc:
         c = commit[i]
@@ -111,6 +126,19 @@ def run(res):
                       {"correspondence": "policy-setup", "theorem": "C05_setup", "case": _strip(c),
                        "model": model[-300:]}, has_input=False)
     shown = 0
+    for i in fl:
+        c = life[i]
+        if c["monitor_violation"]:
+            continue
+        if shown >= 2:
+            break
+        shown += 1
+        model = lib.coq_eval(IMPORTS, "life_model (%s)" % c["coq"], "c05_show")
+        res.violation("setup_channel / commitment requests on one channel id disagree with the model's lifecycle "
+                      "(correspondence policy-life); 0 ok, 1 panic, 2 refused",
+                      {"correspondence": "policy-life", "theorem": "C05_usable_only_after_setup", "case": _strip(c),
+                       "model": model[-300:]}, has_input=False)
+    shown = 0
     for j in fh:
         c, i = chan_steps[j]
         if c["monitor_violation"]:
@@ -125,13 +153,13 @@ def run(res):
                        "step": c["steps"][i], "model(repaired, as-found)": model[-300:]}, has_input=False)
 
     structured = {c["coq"] for c in commit if c["kind"] in ("base", "pairwise")}
-    nontrivial = len(structured) + len(set(sterms)) + len(set(hterms))
+    nontrivial = len(structured) + len(set(sterms)) + len(set(hterms)) + len(set(lterms))
     dist = {}
     for c in commit:
         dist[str(c["observed"])] = dist.get(str(c["observed"]), 0) + 1
     witness = [c for c in chan if c["kind"] == "chan-F5-witness"]
     cov.update({
-        "evaluations": len(commit) + len(setup) + len(hterms),
+        "evaluations": len(commit) + len(setup) + len(hterms) + len(life),
         "distinct_nontrivial": nontrivial,
         "rule": "commit: 10% fully random edge values (malformed stream), 10% accepted base commitments, 80% an accepted "
                 "base commitment with two fields (all 351 pairs of 27 fields cycled) set to boundary values derived from "
@@ -141,14 +169,18 @@ def run(res):
                 "closed flags, filter rule sets (exact, prefix, error-before-warn, permissive); all four entry points. "
                 "setup: types x delays at min/max +-1, 0, 65535 x shutdown script ours/allowlisted/foreign x channel value "
                 "around max_channel_size_sat x filters. chan: real node+channel, initial commitment / retry / next with "
-                "fee and channel value at the edges, simple and on-chain validator. Non-trivial = structured case (base "
+                "fee and channel value at the edges, simple and on-chain validator. life: real node, one channel id: "
+                "setup_channel refused for each modelled reason (each delay below/above, unsafe type, foreign shutdown "
+                "script; accepted as control), then sign_counterparty_commitment_tx_phase2 and "
+                "validate_holder_commitment_tx_phase2 (with a genuine counterparty signature) for commitment 0, a retry of "
+                "the refused setup, a good setup, the requests again, the first setup again. Non-trivial = structured case (base "
                 "or boundary-mutated; every setup and chan step), distinct by full Coq term.",
-        "samples": [_strip(commit[2]) if len(commit) > 2 else None, _strip(setup[0]), _strip(chan[0])],
-        "traces_validated_against_impl": len(commit) + len(setup) + len(hterms),
-        "correspondence_disagreements": len(fc) + len(fs) + len(fh),
-        "disagreements_by_domain": {"commit": len(fc), "setup": len(fs), "chan": len(fh)},
+        "samples": [_strip(commit[2]) if len(commit) > 2 else None, _strip(setup[0]), _strip(chan[0]), _strip(life[1])],
+        "traces_validated_against_impl": len(commit) + len(setup) + len(hterms) + len(life),
+        "correspondence_disagreements": len(fc) + len(fs) + len(fh) + len(fl),
+        "disagreements_by_domain": {"commit": len(fc), "setup": len(fs), "chan": len(fh), "life": len(fl)},
         "disagreements_matching_unrepaired_estimator": explained_old,
-        "monitor_failures": len(mon_commit) + len(mon_setup) + len(mon_chan),
+        "monitor_failures": len(mon_commit) + len(mon_setup) + len(mon_chan) + len(mon_life),
         "observed_distribution_commit(0 ok,1 panic,100+tag)": dist,
         "profiles": profiles,
         "f5_witness_replay": [s["observed"] for s in witness[0]["steps"]] if witness else None,
